@@ -38,7 +38,7 @@ CHECKS = {
     "C05": dict(
         engine="schedsim",
         technique="deterministic simulation: block validators (parse_spends, run_block_generator2), the mempool pre-validator (validate_clvm_and_signature, feeding its pairings back) and an evictor run as simulated threads on one shared BlsCache under a seeded scheduler at lock granularity; a wallet signs with the real helper, a channel injects one tampering per bundle; verdicts are compared with a ground truth by construction computed from an independent statement of the 8 message rules; per-run random domain constants",
-        text="Seeded search over (bundles x tamperings x cache capacity / warm-up x parties x schedules). Every path's verdict, under every explored interleaving and cache history, in a final sweep and without a cache, must equal the verdict fixed by which (key, prescribed message) multiset was signed; the helper's messages and the pre-validator's cache keys must equal the reference; the block paths receive the bundle plain, back-referenced (identical conditions decode to one node) or with INTERNED_GENERATOR; a further party pre-validates with the signature check deferred (DONT_VALIDATE_SIGNATURE) on the shared cache, which must not change anybody's verdict. Exploration level (5 k runs quick, 200 k thorough). Narrowed claim: the schedule search decides cache and path independence; the per-opcode message rule is checked by the oracle the histories need, i.e. by seeded inputs, not by the schedules.",
+        text="Seeded search over (bundles x tamperings x cache capacity / warm-up x parties x schedules). Every path's verdict, under every explored interleaving and cache history, in a final sweep and without a cache, must equal the verdict fixed by which (key, prescribed message) multiset was signed; the helper's messages and the pre-validator's cache keys must equal the reference; the block paths receive the bundle plain, back-referenced (identical conditions decode to one node) or with INTERNED_GENERATOR; a further party pre-validates with the signature check deferred (DONT_VALIDATE_SIGNATURE; parse_spends, run_block_generator(2), run_spendbundle, get_conditions_from_spendbundle) on the shared cache, which must not change anybody's verdict and must itself reject exactly what is rejected whatever the signature says (banned AGG_SIG_UNSAFE message, infinity / malformed key, same coin twice); every bundle is validated again on the thread that validated it before (resubmission). Exploration level (5 k runs quick, 200 k thorough). Narrowed claim: the schedule search decides cache and path independence; the per-opcode message rule is checked by the oracle the histories need, i.e. by seeded inputs, not by the schedules.",
         design_ref="DESIGN.md section 3, C05",
         note="Trusted: blst, the scheduler/hook, the harness's rule table (written from the property's restatement of CHIP-11, sharing no code with conditions.rs or the helper). Only accept/reject is compared. Expected verdicts are computed from the delivered bundle, so harmless tampering is expected to pass.",
     ),
